@@ -1179,7 +1179,9 @@ class MultipartWriter(Payload):
             if self._is_form_data:
                 # https://datatracker.ietf.org/doc/html/rfc7578#section-4.2
                 assert CONTENT_DISPOSITION in part.headers
-                assert "name=" in part.headers[CONTENT_DISPOSITION]
+                # A name that is not plain ASCII is written as ``name*=`` (RFC 5987).
+                disposition = part.headers[CONTENT_DISPOSITION]
+                assert "name=" in disposition or "name*=" in disposition
 
             await writer.write(b"--" + self._boundary + b"\r\n")
             await writer.write(part._binary_headers)
